@@ -182,9 +182,7 @@ class Interp:
         if f in self.native and not contains_sym(args) and not contains_sym(kwargs):
             return f(*args, **kwargs)
         node, has_yield = func_ast(f)
-        if has_yield:
-            if contains_sym(args) or contains_sym(kwargs):
-                raise Unsupported("generator function %s with symbolic arguments" % f.__qualname__)
+        if has_yield and not (contains_sym(args) or contains_sym(kwargs)):
             return f(*args, **kwargs)
         try:
             ba = inspect.signature(f).bind(*args, **kwargs)
@@ -197,12 +195,21 @@ class Interp:
             raise Unsupported("interpreter call depth exceeded")
         self.calls.append(f.__module__ + "." + f.__qualname__)
         frame = Frame(self, f, env)
+        if has_yield:
+            # a generator function on symbolic arguments is evaluated eagerly: the yielded values are collected (its
+            # body must not depend on what the consumer does between two items -- an assumption of this interpreter,
+            # as for generator expressions); an endless generator runs into the loop bounds
+            frame.yielded = []
         try:
             frame.exec_block(node.body)
         except _Return as r:
+            if has_yield:
+                return iter(_GenResult(frame.yielded))
             return r.v
         finally:
             self.depth -= 1
+        if has_yield:
+            return iter(_GenResult(frame.yielded))
         return None
 
     def builtin(self, f, args, kwargs):
@@ -359,6 +366,14 @@ class Frame:
     def s_Pass(self, s):
         pass
 
+    def s_FunctionDef(self, s):
+        """an inner function: a closure over this frame's variables (read-only use of them; no decorators, no yield)"""
+        if s.decorator_list:
+            raise Unsupported("decorated inner function")
+        if any(isinstance(n, (ast.Yield, ast.YieldFrom, ast.Nonlocal, ast.Global)) for n in ast.walk(s)):
+            raise Unsupported("inner generator function / nonlocal")
+        self.env[s.name] = _Closure(self, s)
+
     def s_Import(self, s):
         for a in s.names:
             mod = __import__(a.name)
@@ -397,9 +412,18 @@ class Frame:
                 obj = self.ev(t.value)
                 idx = self.ev_index(obj, t.slice)
                 self.I.ctx.writes.append((obj, "delitem", idx))
-                if is_sym(idx):
+                if isinstance(idx, _SymSlice):
+                    lo = self.I.ctx.concretize(idx.lo) if is_sym(idx.lo) else idx.lo
+                    hi = self.I.ctx.concretize(idx.hi) if is_sym(idx.hi) else idx.hi
+                    idx = slice(lo, hi)
+                elif is_sym(idx):
                     raise Unsupported("del with symbolic key")
-                del obj[idx]
+                if isinstance(obj, SBytes):
+                    if not obj.mutable:
+                        raise TypeError("'bytes' object doesn't support item deletion")
+                    del obj.cells[idx]
+                else:
+                    del obj[idx]
             elif isinstance(t, ast.Name):
                 del self.env[t.id]
             elif isinstance(t, ast.Attribute):
@@ -616,7 +640,7 @@ class Frame:
             yield V.arith("+", r.start, k * r.step)
             k += 1
             if k > getattr(self.I.ctx, "concrete_loop_bound", 1000000):
-                raise V.LoopBound()
+                raise Unsupported("a range of symbolic length (already shown to be within the iteration bound) is iterated outside a `for` statement")
 
     def s_For(self, s):
         it = self.ev(s.iter)
@@ -625,7 +649,14 @@ class Frame:
             return
         seq = self.iterate(it)
         broke = False
+        count = 0
+        # a native ITERATOR (itertools.count, iter(f, sentinel), a generator object ...) may never end; containers and
+        # views are finite.  The limit is generous: it only has to stop an endless one.
+        endless_guard = hasattr(seq, "__next__") and not isinstance(seq, types.GeneratorType)
         for x in (list(seq) if isinstance(seq, (list, dict, set)) or hasattr(seq, "keys") else seq):
+            count += 1
+            if endless_guard and count > 20000:
+                raise V.LoopBound()
             self.store(s.target, x)
             try:
                 self.exec_block(s.body)
@@ -784,6 +815,14 @@ class Frame:
             if type(v).__name__ == "_Poison":
                 raise Unsupported("loop-carried variable %s is read before it is assigned in the loop body" % e.id)
             return v
+        # free variables of a function created by a factory (a closure built natively, e.g. at import time)
+        code = getattr(self.f, "__code__", None)
+        if code is not None and e.id in code.co_freevars and getattr(self.f, "__closure__", None):
+            cell = self.f.__closure__[code.co_freevars.index(e.id)]
+            try:
+                return cell.cell_contents
+            except ValueError:
+                raise NameError("free variable '%s' referenced before assignment in enclosing scope" % e.id) from None
         if e.id in self.glob:
             return self.glob[e.id]
         try:
@@ -1149,6 +1188,13 @@ class Frame:
                     yield from rec(i + 1)
 
         saved = dict(self.env)
+        if getattr(self.I.ctx, "range_bound", None) is not None:
+            # termination contracts over buffers of any length: a comprehension over a range of symbolic length (whose
+            # length was checked against the iteration bound when the range was built) is summarised: a list of
+            # unknown contents -- only its termination matters there
+            first = self.ev(gens[0].iter)
+            if isinstance(first, V.SymRange):
+                return SOpaque("list-built-by-a-comprehension-over-a-range-of-symbolic-length", first)
         try:
             return list(rec(0))
         finally:
@@ -1160,6 +1206,22 @@ class Frame:
                             self.env[n.id] = saved[n.id]
                         else:
                             self.env.pop(n.id, None)
+
+    def e_Yield(self, e):
+        ys = getattr(self, "yielded", None)
+        if ys is None:
+            raise Unsupported("yield outside an eagerly evaluated generator function")
+        ys.append(self.ev(e.value) if e.value is not None else None)
+        if len(ys) > getattr(self.I.ctx, "concrete_loop_bound", 1000000):
+            raise V.LoopBound()
+        return None
+
+    def e_YieldFrom(self, e):
+        ys = getattr(self, "yielded", None)
+        if ys is None:
+            raise Unsupported("yield from outside an eagerly evaluated generator function")
+        ys.extend(list(self.iterate(self.ev(e.value))))
+        return None
 
     def e_GeneratorExp(self, e):
         return _GenResult(self._comp(e.generators, lambda: self.ev(e.elt)))
@@ -1205,6 +1267,13 @@ class _Closure:
             else:
                 raise TypeError("<lambda>() missing required argument '%s'" % p)
         f = Frame(self.frame.I, self.frame.f, env)
+        if isinstance(self.node, ast.FunctionDef):
+            # an inner `def`: statements, result through return (no yield: checked when it was defined)
+            try:
+                f.exec_block(self.node.body)
+            except _Return as r:
+                return r.v
+            return None
         return f.ev(self.node.body)
 
 
